@@ -35,6 +35,13 @@ func (vc *VC) builtin(fr *Frame, st *State, x *ssa.Call, name string, args []*Va
 			l := vc.define("mlen", "Int", ite("(= "+a.S+" 0)", "0", "(select "+card+" "+a.S+")"))
 			// a map holds fewer than 2^56 entries (it has to fit in memory)
 			vc.assume("(and (>= " + l + " 0) (< " + l + " 72057594037927936))")
+			// a map has no entries iff its length is zero (finite maps)
+			_, dom, _, _ := vc.mapArrays(st, at)
+			ks := vc.u.sortOf(at.Key())
+			dm := "(select " + dom + " " + a.S + ")"
+			vc.assume(fmt.Sprintf("(=> (and (not (= %s 0)) (= %s 0)) (forall ((k %s)) (! (not (select %s k)) :pattern ((select %s k)))))", a.S, l, ks, dm, dm))
+			w := vc.fresh("mapwit", ks)
+			vc.assume(fmt.Sprintf("(=> (> %s 0) (and (not (= %s 0)) (select %s %s)))", l, a.S, dm, w))
 			return &Val{T: tInt, S: l}
 		}
 	case "cap":
